@@ -272,6 +272,61 @@ package retriever
 //@   ensures neverPublishes: fileComplete[s.path] == old(fileComplete[s.path])
 //@   ensures tempRemoved: !old(s.closed) ==> !fileComplete[s.tempPath]
 
+// C19 kernel, fragment commit: the commit callback of a dump phase (it records the fragment and the source cursor in
+// the checkpoint) is handed a fragment only after closeFragmentWriter returned nil for exactly that relative path in
+// the same flush - i.e. after the fragment file was closed, hashed and renamed to its final name (closedOK is set
+// nowhere else) - and a flush that fails after the fragment was published removes it again, so that no published
+// fragment exists that neither the checkpoint nor the returned file list knows about. Assumed of the callback (it is a
+// closure of dumpGraph over the checkpoint): it does not write the local variables of the phase function, which Go's
+// scoping guarantees; os.Remove is assumed to succeed (its error is ignored by the code).
+//@ ghost comp closedOK bool
+//@ func cloneActionCounts(source map[string]int) map[string]int
+//@   opaque
+//@   nomod
+//@ func (s scrubActionCounts) mapValue() map[string]int
+//@   opaque
+//@   nomod
+//@ func fragmentPath(graphName string, fragmentPhase Phase, shardNumber int, codec CompressionCodec) (string, error)
+//@   opaque
+//@   nomod
+//@ func closeFragmentWriter(writer *compressedJSONLinesWriter, relativePath string, fragmentPhase Phase, actionCounts map[string]int) (FileManifest, error)
+//@   requires writer != nil && fragmentWriterWF(writer)
+//@   modifies writer.closed, fileComplete[writer.tempPath], fileComplete[writer.path], closedOK[relativePath]
+//@   nosafety
+//@   ghostset closedOK[relativePath] := result.1 == nil || old(closedOK[relativePath])
+//@   ensures published: result.1 == nil ==> fileComplete[writer.path] && result.0.Path == relativePath && closedOK[relativePath]
+//@   ensures notPublishedOnError: result.1 != nil && !old(writer.closed) ==> fileComplete[writer.path] == old(fileComplete[writer.path])
+//@ func openFragmentWriter(outputDir string, graphName string, fragmentPhase Phase, shardNumber int, options DumpOptions) (*compressedJSONLinesWriter, string, error)
+//@   nosafety
+//@   modifies all(ghost:g.fileComplete), all(ghost:g.nonAtomicWrite)
+//@   ensures opened: result.2 == nil ==> result.0 != nil && fragmentWriterWF(result.0) && !result.0.closed && result.0.path == joinPath(outputDir, fromSlash(result.1))
+
+//@ func dumpNodePhase$1() error
+//@   requires fragmentWriter != nil ==> fragmentWriterWF(fragmentWriter) && !fragmentWriter.closed && fragmentWriter.path == joinPath(options.OutputDir, fromSlash(fragmentRelativePath))
+//@   nosafety
+//@   fparam onCommit(fileEntry FileManifest, lastID graph.ID) error
+//@     requires closedFirst: closedOK[fileEntry.Path]
+//@     modifies all(ghost:g.fileComplete), all(ghost:g.nonAtomicWrite)
+//@   endfparam
+//@   ensures writerGone: fragmentWriter == nil
+//@   ensures withdrawnOnFailure: result != nil && old(fragmentWriter) != nil ==> !fileComplete[old(fragmentWriter.path)] || fileComplete[old(fragmentWriter.path)] == old(fileComplete[old(fragmentWriter.path)])
+//@   ensures filesOnSuccess: result == nil && old(fragmentWriter) != nil ==> len(files) == old(len(files)) + 1 && files[len(files) - 1].Path == old(fragmentRelativePath)
+//@   ensures filesOnFailure: result != nil ==> len(files) == old(len(files))
+//@   ensures nothingToDo: old(fragmentWriter) == nil ==> result == nil && len(files) == old(len(files))
+
+//@ func dumpEdgePhase$1() error
+//@   requires fragmentWriter != nil ==> fragmentWriterWF(fragmentWriter) && !fragmentWriter.closed && fragmentWriter.path == joinPath(options.OutputDir, fromSlash(fragmentRelativePath))
+//@   nosafety
+//@   fparam onCommit(fileEntry FileManifest, lastID graph.ID) error
+//@     requires closedFirst: closedOK[fileEntry.Path]
+//@     modifies all(ghost:g.fileComplete), all(ghost:g.nonAtomicWrite)
+//@   endfparam
+//@   ensures writerGone: fragmentWriter == nil
+//@   ensures withdrawnOnFailure: result != nil && old(fragmentWriter) != nil ==> !fileComplete[old(fragmentWriter.path)] || fileComplete[old(fragmentWriter.path)] == old(fileComplete[old(fragmentWriter.path)])
+//@   ensures filesOnSuccess: result == nil && old(fragmentWriter) != nil ==> len(files) == old(len(files)) + 1 && files[len(files) - 1].Path == old(fragmentRelativePath)
+//@   ensures filesOnFailure: result != nil ==> len(files) == old(len(files))
+//@   ensures nothingToDo: old(fragmentWriter) == nil ==> result == nil && len(files) == old(len(files))
+
 // C19 kernel, ordering: the checkpoint is the only record of an unfinished dump, so it may be removed only once the
 // manifest has been published under its final name. removeDumpCheckpoint requires that; Dump is verified to call it
 // only on the path where writeManifest returned nil (and writeManifest's own contract says what that means).
